@@ -13,7 +13,7 @@ RULE = ('C01 workloads plus 1-3 termination requests (terminate(reason) / Agent.
         'A fifth of the runs open two contacts between the same two agents and call Agent.shutdown() (or terminate() on one contact) while transfers run on the other; no faults there, so every started transfer must complete, every terminated contact must exchange SESS_TERM and close, and a contact that was not terminated must stay open. Non-trivial: a SESS_TERM, close or fault actually occurred; distinct = distinct event-history digests.')
 COMPONENTS = tc.COMPONENTS
 PROBES = ('wire.SESS_TERM', 'probe.term_mid_transfer', 'probe.simultaneous_term', 'probe.term_before_established',
-          'probe.unstarted_at_term', 'fault.reset', 'fault.kill', 'fault.blackhole', 'fault.stall', 'tcp.short_write', 'engine.multi_contact', 'fault.spurious_readable')
+          'probe.unstarted_at_term', 'fault.reset', 'fault.kill', 'fault.blackhole', 'fault.stall', 'tcp.short_write', 'engine.multi_contact', 'fault.spurious_readable', 'probe.shutdown_while_ending')
 ASSUMPTIONS = ['as C01', 'bounded liveness: both contacts closed within the 60 s horizon (which exceeds every stall and idle time drawn)']
 CHUNK = 10
 
@@ -34,6 +34,9 @@ def _gen_multi(ch):
         term['delay'] = ch.choice('t.delay', (0, 30, 300))
     else:
         term['t'] = 3000 + 1000 * ch.pick('t.t', 60)
+    if term['kind'] != 'shutdown' and ch.coin('t2', 1, 2):
+        # ... and the whole agent is shut down a moment later, while that contact may still be ending
+        term['then_shutdown'] = ch.choice('t2.delay', (0, 100, 2000, 50000, 1000000))
     return dict(scenario='tcpcl_multi', cfg=cfg, chunk_size=ch.choice('chunk', (10240, 10240, 1000, 65536)),
                 net=dict(tcp_capacity=ch.choice('cap', (65536, 4096, 262144)), short_write_16=ch.choice('shortw', (0, 0, 4))),
                 sends=sorted(sends, key=lambda item: item['t']), term=term)
@@ -95,6 +98,13 @@ def _execute_multi(plan, sched, verbose):
             cx = int(item['kind'][-1])
             if len(paths) > cx:
                 har.call(item['side'], paths[cx], 'terminate', 0)
+            if item.get('then_shutdown') is not None:
+                wld.at(wld.now + item['then_shutdown'], shutdown_after, item)
+
+    def shutdown_after(item):
+        term_seq['shutdown_after'] = wld.seq
+        run.stats['probe.shutdown_while_ending'] = 1
+        har.call(item['side'], tcpcl_pair.AGENT_PATH, 'shutdown')
 
     wld.at(0, connect, None)
     wld.at(1500, connect, None)
@@ -116,10 +126,17 @@ def _execute_multi(plan, sched, verbose):
         run.stats['multi.not_reached'] = 1
         return run
     if not term_seq.get('all_established'):
-        run.stats['multi.not_reached'] = 1
         run.stats['probe.term_before_established'] = 1
+        if plan['term']['kind'] == 'shutdown':
+            # Agent.shutdown() while a contact is still negotiating: no session is to be left half-open, whatever state it was in
+            tside = plan['term']['side']
+            for (cx, path) in enumerate(har.opened[tside]):
+                if path not in har.closed[tside]:
+                    run.viols.append(('close', 'half-open-after-early-shutdown', '%s still holds contact %d open at the end of the run although the agent was shut down' % (tside, cx)))
+            return run
+        run.stats['multi.not_reached'] = 1
         return run
-    shutdown = plan['term']['kind'] == 'shutdown'
+    shutdown = plan['term']['kind'] == 'shutdown' or 'shutdown_after' in term_seq
     tside = plan['term']['side']
     busy_other = False
     for cx in range(2):
